@@ -117,6 +117,11 @@ package object
 // C03: the comparison closure of Sort dereferences no nil interface, whatever the items are (sort.SliceStable calls it
 // with indices inside the slice; the items of a list are never nil).
 //@ func Sort$1
-//@ props C03
+//@ props C03 C16 C15
+// C16 / C15: a comparison that succeeds leaves the recorded error alone - the closure changes it only on a path on which
+// it answers "not less" or on which Compare reported an error - so the first failed comparison is still on record when
+// the sort ends and Sort reports it (seed C16k assigned the error variable on every comparison: a later successful
+// comparison erased the failure and an unsortable list came back unsorted, without an error).
+//@ ensures[C16,C15.sort.err.kept] capvar_comparableErr == old(capvar_comparableErr) || !result || len(capvar_comparableErr) > 0
 //@ safety nil index
 //@ assume[less.args] 0 <= a && a < len(cap_items) && 0 <= b && b < len(cap_items) && forall(k, 0, len(cap_items), cap_items[k] != nil && ref(cap_items[k]) != nil)
